@@ -745,7 +745,7 @@ def proposeBundle (c : Circuit) (nodes : Array CNode) (nd : CNode) (e : Nat) (s 
 /-- a bundle literal known to be the wire-sum of `es`: give each scalar part the one entity of `es` that emits
 exactly that part's signal -/
 def proposeParts (c : Circuit) (nodes : Array CNode) (parts : List Nat) (es : List Nat) : Props :=
-  parts.filterMap (fun p =>
+  let scalars : Props := parts.filterMap (fun p =>
     match (nodes[p]? : Option CNode) with
     | some nd =>
       (match nd.ty? with
@@ -755,6 +755,12 @@ def proposeParts (c : Circuit) (nodes : Array CNode) (parts : List Nat) (es : Li
           | _ => none)
        | none => none)
     | none => none)
+  -- one nested bundle: it is whatever the scalar parts leave over
+  let used : List Nat := scalars.filterMap (fun (_, b) => match b with | .ent e _ => some e | _ => none)
+  let bundles := parts.filter (fun p => match (nodes[p]? : Option CNode) with | some nd => nd.ty?.isNone | none => false)
+  match bundles with
+  | [p] => scalars ++ [(p, Bind.many (es.filter (fun e => !used.contains e)))]
+  | _ => scalars
 
 /-- what the circuit condition of entity `i` suggests about the nodes behind the enable value `w` -/
 def proposeEnable (c : Circuit) (nodes : Array CNode) (i : Nat) (w : Arg) : Props :=
